@@ -471,9 +471,12 @@ fn run_workload(ctx: &mut Ctx, wid: usize, model_ops: &str, stmts: &[String], ou
             };
             // crash inside the recovery of this image
             let mut rr = vec![];
-            let do_recrash = ctx.thorough
-                || (kind == "at-point" && (n % 4 == 0 || p.name.contains("dv") || p.name.contains("precommit") || p.name.contains("vacuum")))
-                || (kind != "at-point" && j % 7 == 0);
+            let do_recrash = if ctx.thorough {
+                kind == "at-point" || j % 5 == 0
+            } else {
+                (kind == "at-point" && (n % 4 == 0 || p.name.contains("dv") || p.name.contains("precommit") || p.name.contains("vacuum")))
+                    || (kind != "at-point" && j % 7 == 0)
+            };
             if r.class == "ok" && do_recrash {
                 let rp = r.recovery_points.clone();
                 for (m, q) in rp.iter().enumerate() {
@@ -494,7 +497,25 @@ fn run_workload(ctx: &mut Ctx, wid: usize, model_ops: &str, stmts: &[String], ou
                     }
                 }
             }
-            out.push(json!({"type": "image", "workload": wid, "stmt": i, "k": k_here, "sql": if i >= 0 { stmts[i as usize].clone() } else { "BOOT".into() },
+            // delete-vector files of the image that no complete manifest record references
+            let orphan_dv = {
+                let recs = img.get("manifest.json").and_then(|x| x.as_ref()).map(|b| rec_summary(b)).unwrap_or_default();
+                let mut live: Vec<String> = vec![];
+                // only committed transactions count (records up to the last `end`)
+                let all: Vec<&str> = recs.split(',').collect();
+                let committed = all.iter().rposition(|r| *r == "end").map(|i| &all[..=i]).unwrap_or(&[]);
+                for r in committed {
+                    if let Some(k) = r.strip_prefix("adddv:") {
+                        live.push(k.to_string());
+                    } else if let Some(k) = r.strip_prefix("deletedv:") {
+                        live.retain(|x| x != k);
+                    }
+                }
+                img.keys().any(|f| {
+                    f.strip_prefix("dv/").and_then(|x| x.strip_suffix(".dv")).map(|x| !live.contains(&x.replace('_', ":"))).unwrap_or(false)
+                })
+            };
+            out.push(json!({"type": "image", "workload": wid, "stmt": i, "k": k_here, "orphan_dv": orphan_dv, "sql": if i >= 0 { stmts[i as usize].clone() } else { "BOOT".into() },
                 "point": n, "name": p.name, "detail": p.detail, "kind": kind, "file": file, "j": j, "len": len,
                 "changes": changes.iter().map(change_str).collect::<Vec<_>>(),
                 "class": r.class, "msg": r.msg, "verdict": verdict, "dump": r.dump,
